@@ -1061,10 +1061,154 @@ let op_pppipe r = function
   | _ -> failwith "pppipe: fields"
 
 (* ---------- main loop ---------- *)
+(* ---------- op: step (hooked): the scanner's state machine line by line ---------- *)
+let op_step r = function
+  | content :: steps :: snaps ->
+    let content_s = unhex content in
+    let ls, tl = split_lines content_s in
+    let lines = Array.of_list (if tl = "" then ls else ls @ [tl]) in
+    let nl = Array.length lines in
+    let buf = Buffer.create 256 in
+    let m_snaps = ref [] in
+    let i = ref 0 in
+    let panicked = ref false in
+    while !i < nl && not !panicked do
+      let ss = ref M.ss0 in
+      let fed = ref 0 in
+      let fin = ref false in
+      while !i < nl && not !fin do
+        (match M.scan !ss (bytes_of_string lines.(!i)) with
+         | M.Panic _ -> Buffer.add_string buf "P"; m_snaps := "PANIC" :: !m_snaps; panicked := true; fin := true
+         | M.Ok ((ss', l), e) ->
+           ss := ss';
+           incr fed;
+           if !fed > 1 then Buffer.add_char buf ';';
+           let sti = int_of_nat (M.state_index ss'.M.st) in
+           Buffer.add_string buf (Printf.sprintf "%d:%s:%s" sti (if l then "1" else "0") (if e = None then "0" else "1"));
+           tag r (Printf.sprintf "st%d" sti);
+           let handed_back = not l && sti <> 0 in
+           let fin_ = e <> None || sti = 1 || handed_back in
+           if not (handed_back && !fed > 1) then incr i;
+           if fin_ then fin := true)
+      done;
+      if not !panicked then begin
+        let gs = !ss.M.goroutines in
+        m_snaps := ((if gs = [] then "nil" else canon_gs gs) ^ " " ^ hex (string_of_bytes !ss.M.sprefix)) :: !m_snaps;
+        if !i < nl then Buffer.add_char buf '|'
+      end
+    done;
+    let m_steps = if Buffer.length buf = 0 then "-" else Buffer.contents buf in
+    if String.contains steps 'P' then flag r "impl:panic";
+    if m_steps <> steps then begin
+      flag r "corr:step-trace";
+      let a = String.split_on_char ';' (String.concat ";" (String.split_on_char '|' m_steps))
+      and b = String.split_on_char ';' (String.concat ";" (String.split_on_char '|' steps)) in
+      let rec fd k x y = match x, y with
+        | u :: x', v :: y' -> if u = v then fd (k + 1) x' y' else Printf.sprintf "line %d: model %s impl %s (state:consumed:error)" k u v
+        | _ -> Printf.sprintf "line %d: lengths differ" k in
+      r.detail <- fd 0 a b
+    end else begin
+      let ms = List.rev !m_snaps in
+      if List.length ms <> List.length snaps then flag r "corr:step-sessions"
+      else List.iter2 (fun m i_ ->
+        let i_c = match String.rindex_opt i_ ' ' with
+          | Some k ->
+            let g = String.sub i_ 0 k and p = String.sub i_ k (String.length i_ - k) in
+            (if g = "nil" || g = "PANIC" then g else canon_gs (goroutines_of (parse_sx g))) ^ p
+          | None -> i_ in
+        if m <> i_c then (flag r "corr:step-goroutines"; r.detail <- "model " ^ m ^ " impl " ^ i_c)) ms snaps
+    end;
+    tag r (Printf.sprintf "sessions=%d" (min 9 (List.length snaps)))
+  | _ -> failwith "step: fields"
+
+(* ---------- op: sigops (hooked): less / equal / similar / merge directly ---------- *)
+let op_sigops r = function
+  | sigs_s :: less :: eq :: sim :: unchanged :: merges ->
+    let sigs = match parse_sx sigs_s with L (A "sigs" :: l) -> Array.of_list (List.map sig_of l) | _ -> failwith "sigs" in
+    let n = Array.length sigs in
+    if String.contains less 'P' || String.contains eq 'P' || String.contains sim 'P' || List.mem "PANIC" merges then flag r "impl:panic";
+    if unchanged <> "1" then flag r "prop:C14:relation-mutated-its-arguments";
+    let lt x y = less.[x * n + y] = '1' in
+    for x = 0 to n - 1 do for y = 0 to n - 1 do
+      if (less.[x * n + y] = '1') <> M.sig_less sigs.(x) sigs.(y) then flag r "corr:sig-less";
+      if (eq.[x * n + y] = '1') <> M.sig_equal sigs.(x) sigs.(y) then flag r "corr:sig-equal";
+      if lt x y then tag r "lt"
+    done done;
+    (* strict weak order, on the implementation's own answers *)
+    for a = 0 to n - 1 do
+      if lt a a then flag r "prop:C13:irreflexivity";
+      for b = 0 to n - 1 do
+        if lt a b && lt b a then flag r "prop:C13:asymmetry";
+        for c = 0 to n - 1 do
+          if lt a b && lt b c && not (lt a c) then flag r "prop:C13:transitivity";
+          if not (lt a b) && not (lt b a) && not (lt b c) && not (lt c b) && (lt a c || lt c a) then flag r "prop:C13:incomparability"
+        done done done;
+    let lvls = [| M.ExactFlags; M.ExactLines; M.AnyPointer; M.AnyValue |] in
+    let ms = ref merges in
+    Array.iteri (fun li lvl ->
+      for x = 0 to n - 1 do for y = 0 to n - 1 do
+        let s = sim.[li * n * n + x * n + y] = '1' in
+        if s <> M.sig_similar lvl sigs.(x) sigs.(y) then flag r "corr:sig-similar";
+        if eq.[x * n + y] = '1' && not s then flag r "prop:C05:equal-not-similar";
+        if x = y && not s then flag r "prop:C05:similar-not-reflexive";
+        if s && sim.[li * n * n + y * n + x] <> '1' then flag r "prop:C05:similar-not-symmetric";
+        if s then begin
+          tag r "sim";
+          match !ms with
+          | m :: rest ->
+            ms := rest;
+            if m <> "PANIC" then begin
+              let mi = sig_of (parse_sx m) in
+              let mm = M.sig_merge sigs.(x) sigs.(y) in
+              if sx_to_string (sx_of_sig mi) <> sx_to_string (sx_of_sig mm) then flag r "corr:sig-merge";
+              if not (M.sig_similar lvl mi sigs.(x) && M.sig_similar lvl mi sigs.(y)) then flag r "prop:C12:merge-not-similar-to-members"
+            end
+          | [] -> flag r "corr:sig-merge-count"
+        end
+      done done) lvls
+  | _ -> failwith "sigops: fields"
+
+(* ---------- op: rlines (hooked): the line reader directly ---------- *)
+let op_rlines r = function
+  | [content; sched; final; i_lines; i_err] ->
+    let src = source_of content sched final in
+    let content_s = unhex content in
+    let rec go fuel rd src acc =
+      if fuel = 0 then Error "fuel" else
+      match M.read_line rd src with
+      | M.Panic _ -> Error "panic"
+      | M.Ok ((((d, e), rd'), src'), _) ->
+        let acc = if d = [] then acc else string_of_bytes d :: acc in
+        (match e with
+         | None -> go (fuel - 1) rd' src' acc
+         | Some err -> Ok (List.rev acc, err)) in
+    let il = List.map unhex (split_on ',' i_lines) in
+    if i_err = "PANIC" then flag r "impl:panic";
+    (match go (String.length content_s + 200) M.reader0 src [] with
+     | Error _ -> flag r "model:panic"
+     | Ok (ml, err) ->
+       if ml <> il then flag r "corr:rlines";
+       if err_class (M.EIo err) <> i_err then flag r "corr:rlines-err");
+    let cat = String.concat "" il in
+    if not (is_prefix cat content_s) then flag r "prop:C09:lines-not-a-prefix-of-the-content"
+    else begin
+      if i_err = "eof" && cat <> content_s then flag r "prop:C09:bytes-lost-before-eof";
+      let ls, tl = split_lines cat in
+      let want = if tl = "" then ls else ls @ [tl] in
+      if want <> il then flag r "prop:C09:line-boundaries-depend-on-delivery"
+    end;
+    tag r (Printf.sprintf "lines=%d" (min 9 (List.length il)));
+    tag r ("err=" ^ i_err)
+  | _ -> failwith "rlines: fields"
+
+
 let () =
   let ops : (string, res -> string list -> unit) Hashtbl.t = Hashtbl.create 16 in
   Hashtbl.replace ops "aggregate" op_aggregate;
   Hashtbl.replace ops "less3" op_less3;
+  Hashtbl.replace ops "step" op_step;
+  Hashtbl.replace ops "sigops" op_sigops;
+  Hashtbl.replace ops "rlines" op_rlines;
   Hashtbl.replace ops "scan" op_scan;
   Hashtbl.replace ops "scanseq" op_scanseq;
   Hashtbl.replace ops "cut" op_cut;
